@@ -89,7 +89,16 @@ def render_ini(c, r, section="bumpver", quote="all"):
     return "\n".join(lines) + "\n"
 
 
-def render_toml(c, section="bumpver"):
+def render_toml(c, section="bumpver", style=None):
+    text = _render_toml(c, section)
+    if style == "indented":          # keys indented under their table headers (valid TOML, a common hand-formatted style)
+        text = "".join((l if (l.startswith("[") or not l.strip()) else "    " + l) for l in text.splitlines(True))
+    if style == "header-comment":    # a comment after the table headers
+        text = "".join((l.rstrip("\n") + "  # managed by bumpver\n" if l.startswith("[") else l) for l in text.splitlines(True))
+    return text
+
+
+def _render_toml(c, section="bumpver"):
     t = project.toml_str
     lines = ["[%s]" % section, "current_version = %s" % t(c["current_version"]), "version_pattern = %s" % t(c["version_pattern"])]
     for k in ("commit_message", "tag_message", "tag_scope", "pre_commit_hook", "post_commit_hook"):
@@ -110,7 +119,9 @@ def render_toml(c, section="bumpver"):
 
 SIBLINGS = [("setup.cfg", "ini", "bumpver", "all"), ("setup.cfg", "ini", "bumpver", "none"), ("setup.cfg", "ini", "bumpver", "mixed"), ("setup.cfg", "ini", "bumpver", "single"),
             ("setup.cfg", "ini", "pycalver", "all"), ("pyproject.toml", "toml", "tool.bumpver", None), ("bumpver.toml", "toml", "bumpver", None),
-            (".bumpver.toml", "toml", "bumpver", None), ("pycalver.toml", "toml", "pycalver", None)]
+            (".bumpver.toml", "toml", "bumpver", None), ("pycalver.toml", "toml", "pycalver", None),
+            # the same TOML text formatted by hand
+            ("pyproject.toml", "toml", "tool.bumpver", "indented"), ("bumpver.toml", "toml", "bumpver", "header-comment")]
 
 
 def canon(cfg, cfg_name):
@@ -148,7 +159,7 @@ def run(rep, tier, seed, model_ok=True, effort=1):
     r = common.rng(seed, "c18")
     n = (40 if tier == "quick" else 800) * effort
     rep.rule = ("abstract configurations (v2 and legacy patterns, optional keys present/missing, all tag scopes, hooks, every boolean spelling, messages and patterns containing ' #' and ' ;', sections of other tools before/after, 0..6 files x 1..4 "
-                "patterns) written as 9 siblings: setup.cfg [bumpver] with double-quoted / unquoted / mixed / single-quoted strings, setup.cfg [pycalver], pyproject.toml, bumpver.toml, "
+                "patterns) written as 11 siblings (two of them TOML formatted by hand: indented keys, comments after the table headers): setup.cfg [bumpver] with double-quoted / unquoted / mixed / single-quoted strings, setup.cfg [pycalver], pyproject.toml, bumpver.toml, "
                 ".bumpver.toml, pycalver.toml; the parsed Config of all siblings must be equal (own current_version line aside, which must be found by its "
                 "own pattern), `update --dry` must announce the same version; raw library values fed to the Coq model of _parse_config; non-trivial = distinct "
                 "configuration accepted by at least one sibling")
@@ -159,7 +170,7 @@ def run(rep, tier, seed, model_ok=True, effort=1):
         for fname, kind, section, quote in SIBLINGS:
             d = tempfile.mkdtemp(prefix="bvcfg_", dir=project.SCRATCH)
             try:
-                text = with_noise(render_ini(c, r, section, quote) if kind == "ini" else render_toml(c, section), kind, c.get("noise"))
+                text = with_noise(render_ini(c, r, section, quote) if kind == "ini" else render_toml(c, section, quote), kind, c.get("noise"))
                 open(os.path.join(d, fname), "w", encoding="utf-8").write(text)
                 open(os.path.join(d, "hook.sh"), "w").write("#!/bin/sh\n")
                 if c.get("leftover"):
@@ -215,7 +226,7 @@ def run(rep, tier, seed, model_ok=True, effort=1):
                     os.chdir(old)
                 own_ok = None
                 if cfg is not None and fname in cfg.file_patterns:
-                    own_ok = any(p_.regexp.search(line) for p_ in cfg.file_patterns[fname] for line in text.splitlines() if line.startswith("current_version"))
+                    own_ok = any(p_.regexp.search(line) for p_ in cfg.file_patterns[fname] for line in text.splitlines() if line.strip().startswith("current_version"))
                 results.append((fname, section, quote, res, err, code, out, own_ok))
             finally:
                 shutil.rmtree(d, ignore_errors=True)
